@@ -251,7 +251,11 @@ fn layouts(cells: &[char], blank: char) -> Vec<String> {
     let lines: Vec<String> = s.chars().collect::<Vec<_>>().chunks(4).map(|c| c.iter().collect()).collect();
     let spaced: String = s.chars().map(|c| format!("{c} ")).collect();
     let tabbed: String = lines.join("\t");
-    vec![s.clone(), lines.join("\n") + "\n", spaced, lines.join("\r\n") + "\r\n", tabbed]
+    // Unicode whitespace that is not ASCII whitespace: NO-BREAK SPACE between cells, vertical tab,
+    // IDEOGRAPHIC SPACE and LINE SEPARATOR between rows
+    let nbsp: String = s.chars().map(|c| format!("{c}\u{a0}")).collect();
+    let exotic: String = lines.iter().enumerate().map(|(i, l)| format!("{l}{}", ['\u{b}', '\u{3000}', '\u{2028}', '\u{85}'][i % 4])).collect();
+    vec![s.clone(), lines.join("\n") + "\n", spaced, lines.join("\r\n") + "\r\n", tabbed, nbsp, exotic]
 }
 
 fn run(ctx: &mut Ctx) {
@@ -292,12 +296,12 @@ fn run(ctx: &mut Ctx) {
         let blank = ['.', 'x', '_', '-', '|', '+'][pi % 6];
         let ls = layouts(p, blank);
         // quick: one layout per pattern (cycling), thorough: all three
-        let pick: Vec<&String> = if ctx.thorough() { ls.iter().collect() } else { vec![&ls[pi % 5]] };
+        let pick: Vec<&String> = if ctx.thorough() { ls.iter().collect() } else { vec![&ls[pi % 7]] };
         for (li, l) in pick.into_iter().enumerate() {
             idx += 1;
             if ctx.mine(idx) {
                 // every layout meets every channel (stdin / INPUT file / INPUT and OUTPUT files)
-                CHANNEL.with(|c| c.set((pi / 5 + li) % 3));
+                CHANNEL.with(|c| c.set((pi / 7 + li) % 3));
                 check_exact(ctx, 2, l, &grids);
             }
         }
@@ -325,11 +329,32 @@ fn run(ctx: &mut Ctx) {
     // the completed grid spread over lines with spaces, and with all but the last row blanked
     r3.push(full9.as_bytes().chunks(9).map(|c| c.iter().map(|b| format!("{} ", *b as char)).collect::<String>()).collect::<Vec<_>>().join("\n"));
     r3.push(format!("{}{}", ".".repeat(72), &full9[72..]));
+    // a legal puzzle text can be long: every cell followed by 1000 blanks (81 KB), givens in the
+    // last rows
+    r3.push(full9.chars().enumerate().map(|(i, c)| format!("{}{}", if i < 60 { '.' } else { c }, " ".repeat(1000))).collect());
     for p in &r3 {
         idx += 1;
         if ctx.mine(idx) {
             CHANNEL.with(|c| c.set((idx % 3) as usize));
             check_r3(ctx, p);
+        }
+    }
+    // the documented default root is 3: without -r the output is that of -r 3, whatever the
+    // length of the text (16, 81, 256 cells and lengths around them)
+    for n in [0usize, 1, 15, 16, 17, 80, 81, 82, 255, 256, 257, 625, 1296] {
+        idx += 1;
+        if !ctx.mine(idx) {
+            continue;
+        }
+        let text: String = "1.......2...3...4".chars().cycle().take(n).collect();
+        let c = json!({"part": "default-root", "cells": n});
+        ctx.begin_case(|| c.clone());
+        ctx.count("evaluations", 1);
+        let with = run_bin("sudoku_gen", &["-r".to_string(), "3".to_string()], Some(text.as_bytes()), &[]);
+        let without = run_bin("sudoku_gen", &[], Some(text.as_bytes()), &[]);
+        let strip = |o: String| -> String { o.lines().filter(|l| !l.trim_start().starts_with('"')).collect::<Vec<_>>().join("\n") };
+        if !with.ok() || !without.ok() || strip(with.out()) != strip(without.out()) {
+            ctx.violation(format!("{TAG} default root, text of {n} cells"), format!("sudoku_gen without -r ({}) does not print what sudoku_gen -r 3 ({}) prints", without.describe(), with.describe()), c);
         }
     }
     // r = 4 and r = 5: structure of the hint-free output and of one hinted puzzle
@@ -351,6 +376,17 @@ fn run(ctx: &mut Ctx) {
 }
 
 fn replay(ctx: &mut Ctx, c: &Value) {
+    if c["part"].as_str() == Some("default-root") {
+        let n = c["cells"].as_u64().unwrap_or(16) as usize;
+        let text: String = "1.......2...3...4".chars().cycle().take(n).collect();
+        let with = run_bin("sudoku_gen", &["-r".to_string(), "3".to_string()], Some(text.as_bytes()), &[]);
+        let without = run_bin("sudoku_gen", &[], Some(text.as_bytes()), &[]);
+        let strip = |o: String| -> String { o.lines().filter(|l| !l.trim_start().starts_with('"')).collect::<Vec<_>>().join("\n") };
+        if !with.ok() || !without.ok() || strip(with.out()) != strip(without.out()) {
+            ctx.violation(format!("{TAG} default root, text of {n} cells"), "sudoku_gen without -r does not print what sudoku_gen -r 3 prints".to_string(), c.clone());
+        }
+        return;
+    }
     let r = c["root"].as_u64().unwrap_or(2) as usize;
     let p = c["puzzle"].as_str().unwrap_or("");
     CHANNEL.with(|ch| ch.set(c["channel"].as_u64().unwrap_or(0) as usize));
